@@ -318,11 +318,30 @@ func check(c Case) vk.Verdict {
 		if excepted(ck.Name, c.Except) || len(ck.Value) == 0 || strings.ContainsAny(ck.Name, "=; ") {
 			continue
 		}
-		for _, hdr := range []string{ck.Name + "=" + wire[ck.Name] + "; " + ck.Name + "=evil-raw-text", ck.Name + "=evil-raw-text; " + ck.Name + "=" + wire[ck.Name], ck.Name + "=x; " + ck.Name + "=admin"} {
+		// the other cookies of the client travel in the same header, in front of or behind the repeated name: whatever
+		// happens to the repeated name, they arrive as always (excepted ones as they are, protected ones decrypted)
+		var others []string
+		for _, o := range c.Cookies {
+			if o.Name != ck.Name && !strings.ContainsAny(o.Name, "=; ") && !lossy(o.Value) && len(o.Value) > 0 {
+				others = append(others, o.Name+"="+wire[o.Name])
+			}
+		}
+		rest := strings.Join(others, "; ")
+		for k, hdr := range []string{ck.Name + "=" + wire[ck.Name] + "; " + ck.Name + "=evil-raw-text", ck.Name + "=evil-raw-text; " + ck.Name + "=" + wire[ck.Name], ck.Name + "=x; " + ck.Name + "=admin"} {
+			if rest != "" && k%2 == 0 {
+				hdr = rest + "; " + hdr
+			} else if rest != "" {
+				hdr = hdr + "; " + rest
+			}
 			vk.Do(app, "GET", "/get", "Cookie", hdr)
 			for _, v := range append([]string{seen[ck.Name]}, seenAll[ck.Name]...) {
 				if v != "" && v != string(ck.Value) {
 					return vk.Failf("request cookie header %q: the handler can read %q for cookie %q (through Cookies(), the list of all cookies or the binder); want only \"\" or the issued value %q", hdr, v, ck.Name, ck.Value)
+				}
+			}
+			for _, o := range c.Cookies {
+				if o.Name != ck.Name && !strings.ContainsAny(o.Name, "=; ") && !lossy(o.Value) && len(o.Value) > 0 && seen[o.Name] != string(o.Value) {
+					return vk.Failf("request cookie header %q (cookie %q sent twice): cookie %q reaches the handler as %q, want %q (excepted=%v)", hdr, ck.Name, o.Name, seen[o.Name], o.Value, excepted(o.Name, c.Except))
 				}
 			}
 		}
